@@ -17,6 +17,8 @@ def check(ctx, replay=None):
     plan.append(dict(scope="shortlist", mc=None, kw=dict(W=8, X32Bit=512, NSys=300), stride=1 if th else 2, concs=2, expand=1))
     plan.append(dict(scope="longlist", mc=None, kw=dict(W=8, X32Bit=512, NSys=300), stride=1 if th else 4, concs=2, expand=1))
     plan.append(dict(scope="longops", mc=None, kw=dict(W=8, X32Bit=512, NSys=300), stride=1 if th else 2, concs=2, expand=1))
+    # two alternatives of one syscall, every pair of operations, incl. alternatives that hold for every argument value
+    plan.append(dict(scope="mergeops", mc=["RejectOK"], mc_maxskips=[255], stride=1 if th else 2, concs=2, expand=1))
     plan.append(dict(scope="pairs", mc=None, stride=1 if th else 4, concs=2, expand=1))
     if th:
         # around the kernel's limit (thorough only: TLC needs ~10 s per 4100-instruction model compilation to know the exact size):
